@@ -165,7 +165,7 @@ func run(cfg lib.Cfg) error {
 	judge := func(sc *ts.Scenario, kind string, quiescent bool, neverStarted []int) {
 		reorg := reorgMode
 		ts.Judge(out, sc, kind, func(r *ts.Run) []string {
-			dep := r.DepOracle()
+			dep := append(r.DepOracle(), r.GetLimitOracle()...)
 			msgs := append(append([]string{}, dep...), r.InvOracle()...)
 			switch {
 			case !reorg:
@@ -391,6 +391,47 @@ func run(cfg lib.Cfg) error {
 			}
 			judge(sc, "corpus-dependent-with-stop", quiet, nil)
 		}
+		// through the REAL jrpc2.Client of the source (one client, shared segment caches,
+		// maxreads = number of integrations), every integration with a header plan: a dependent
+		// with two references of different progress - the slower one started later, so its
+		// positions are not multiples of the batch size - next to an unrelated integration that
+		// has just fetched the FULL batch beginning at the dependent's next block.  The
+		// dependent's load is limited by the slower reference (delta < batch size) and must get
+		// exactly that many blocks.  Concurrency 2: the last partition is the shorter one.
+		for v, c := range []struct {
+			batch, conc int
+			r2start     uint64
+			uFirst      bool
+		}{
+			{4, 1, 3, true},  // r-two at 6: the dependent loads (5,2) after somebody loaded (5,4)
+			{4, 1, 3, false}, // the dependent first: nothing cached yet for its request
+			{4, 2, 4, true},  // r-two at 7: partitions (5,2)(7,1) after (5,2)(7,2)
+			{3, 1, 2, true},  // batch 3: r-two at 4, the dependent loads (4,1) after (4,3)
+		} {
+			d := dep("a-dep", "dep", "d1", "r-one")
+			d.Ref2 = "r-two"
+			r1, r2 := created("r-one", "r1"), created("r-two", "r2")
+			r1.Hdr, r2.Hdr = true, true
+			r2.Sources[0].Start = c.r2start
+			u := ts.IGSpec{Name: "u-open", Shape: "log", Table: "u1", Sources: src(1)}
+			g := finishGraph([]ts.IGSpec{d, r1, r2, u})
+			sc := mk(fmt.Sprintf("corpus-real-client-dependent-short-load-%d", v), g, 12, c.batch, c.conc, uint64(90+v))
+			sc.Real = true
+			// tasks: 1 a-dep, 2 r-one, 3 r-two, 4 u-open.  r-one two batches, r-two one, then
+			// u-open and the dependent batch by batch
+			sc.Acts = append(sc.Acts, ts.Act{Do: "step", Tid: 2}, ts.Act{Do: "step", Tid: 2}, ts.Act{Do: "step", Tid: 3})
+			a, b := 4, 1
+			if !c.uFirst {
+				a, b = 1, 4
+			}
+			for i := 0; i < 2; i++ {
+				sc.Acts = append(sc.Acts, ts.Act{Do: "step", Tid: a}, ts.Act{Do: "step", Tid: b})
+			}
+			for i := 0; i < 12/c.batch+4; i++ {
+				sc.Acts = append(sc.Acts, ts.Act{Do: "step", Tid: 4}, ts.Act{Do: "step", Tid: 1}, ts.Act{Do: "step", Tid: 3}, ts.Act{Do: "step", Tid: 2})
+			}
+			judge(sc, "corpus-real-client-dependent-short-load", true, nil)
+		}
 		// the smallest history of this kind: a-ref never runs, c-ref records two batches,
 		// each dependent takes one step: b-dep must do nothing, d-dep may follow c-ref
 		{
@@ -601,6 +642,18 @@ func run(cfg lib.Cfg) error {
 		sc := mk(fmt.Sprintf("deps-%d", i), g, head, r.Range(1, 4), r.Range(1, 3), r.U64()%1_000_000)
 		mode := r.Intn(4)
 		kind := "whole-steps"
+		realClient := i%7 == 5 && !twoSrc
+		if realClient {
+			// the tasks share the real jrpc2.Client of the source; every integration gets a
+			// header plan, so all of them read the same cached header segments
+			sc.Real = true
+			for k := range sc.IGs {
+				sc.IGs[k].Hdr = true
+			}
+			if sc.Srcs[0].Batch == 1 {
+				sc.Srcs[0].Batch = 3 // a dependency-limited load shorter than the batch needs batch > 1
+			}
+		}
 		// speed profile: weights per task
 		w := make([]int, g.nTasks+1)
 		for t := 1; t <= g.nTasks; t++ {
@@ -621,6 +674,9 @@ func run(cfg lib.Cfg) error {
 		}
 		if multi {
 			kind += "-different-references"
+		}
+		if realClient {
+			kind += "-real-client"
 		}
 		pick := func(phase int) int {
 			tot := 0
